@@ -39,6 +39,10 @@ def gen_cases(rng, tier, shard):
         # first-line placement: each of these characters in turn is the most frequent value of its files
         for cp in [0xfeff, 0x20, 0xa0, 0x3000, 0x200b, 0x22, 0x23, 0x3b, 0x5b, 0x25, 0x2000, 0x1680, 0x27, 0x5c]:
             cases.append({'cps': [cp] + rng.sample(SPECIAL, 6), 'dominant': cp, 'encoding': 'utf-8', 'ngram': 2, 'coverage': rng.choice([0.6, 1.0])})
+        # code pages holding an upper-case letter without its lower-case form (cp437: GAMMA THETA OMEGA): the lower-cased word cannot be written in the
+        # training encoding; the trainer refuses today - whatever it does, what it writes must read back under the encoding the ruleset declares
+        cases.append({'cps': [0x393, 0x398, 0x3a9, 0xe9, 0xf1] + rng.sample(SPECIAL, 4), 'encoding': 'cp437', 'ngram': 2, 'coverage': 0.6})
+        cases.append({'cps': [0x3a9, 0xe5] + rng.sample(SPECIAL, 4), 'encoding': 'mac_roman', 'ngram': 2, 'coverage': 1.0})
         return [c for k, c in enumerate(cases) if k % n == i]
     allc = [c for c in range(0x0, 0x10000) if not (0xd800 <= c < 0xe000)]
     astral = [rng.randrange(0x10000, 0x110000) for _ in range(4000)] if i == 0 else []
